@@ -32,14 +32,21 @@ CLAIM = {
             'entrywise Euclidean; circle/rectangle point processes in range. The model is tied to the code by '
             'seeded comparison (1e-9 of the shape scale; discrete decisions exact away from ties) of vertices, '
             'containment, border points, scripted-RNG placement, cluster centres and cell vertices, distance '
-            'matrices and point processes, and by regenerated literal tables (theorem source_tables).',
+            'matrices and point processes, and by regenerated literal tables (theorem source_tables). Cells as state '
+            'machines: for Cell, Cell3Sec (with its three sector cells) and CellSquare (with its stored corners), after '
+            'ANY history of pos / radius / rotation setter calls (radii > 0) the stored state equals that of a freshly '
+            'constructed cell with the current attributes, hence so does every query (vertices, containment, border '
+            'point, whole-cell and per-sector placement, sector positions / radii); CellWrap holds no derived state; '
+            'tied by seeded histories of 1-6 setter calls (radii shrinking and growing) compared with the model, with '
+            'a freshly constructed object and with first-principles polygons of the current attributes.',
     'note': 'Trusted additions: matplotlib.path.Path.contains_point is an oracle parameter (polygon containment of '
             'hexagon / 3-sector / wrapped cells is NOT proved; its agreement with an independent winding-number test '
             'is checked on every query, and with the even-odd reference of the model in the correspondence); '
             'np.random is an explicit stream; driver cos/sin/sqrt are binary64 libm. Partial: no-overlap of the '
             'non-convex 3-sector cells and of wrap-around cells is checked by sampling / centre distances only; '
-            'almost-sure termination of rejection sampling is not a theorem; moving a Rectangle with the pos setter '
-            '(corners are not moved) is outside the property as stated. Fixed in the worktree: defects 19, 20, 22.',
+            'almost-sure termination of rejection sampling is not a theorem; a plain (non-square) Rectangle under '
+            'setters is checked by oracle only (the state model covers Cell, Cell3Sec, CellSquare, CellWrap). Fixed: '
+            'defects 19, 20, 22 and the stale corners of Rectangle / CellSquare under the pos and radius setters.',
 }
 
 TOL = 1e-9
@@ -648,10 +655,227 @@ def o_pointprocess(case):
     return None
 
 
+# ------------------------------------------------------------------ setter histories (cells as state machines)
+SEC_ANGLE = [210.0, 330.0, 90.0]
+
+
+def hist_kind(case):
+    return case['init']['kind']
+
+
+def hist_initial(case):
+    """(pos, radius, rotation) of the freshly constructed initial cell"""
+    init = case['init']
+    k = init['kind']
+    if k == 'rect':
+        a, b = cx(init['first']), cx(init['second'])
+        c = (a + b) / 2
+        return c, abs(b - c), init['rot']
+    if k == 'square':
+        return cx(init['pos']), math.sqrt(2.0) * init['side'] / 2.0, init['rot']
+    return cx(init['pos']), init['R'], init['rot']
+
+
+def hist_current(case):
+    """(pos, radius, rotation, wrap position) after the setter calls, computed from the case alone"""
+    pos, R, rot = hist_initial(case)
+    wpos = cx(case['wrap']) if case.get('wrap') is not None else None
+    for op in case['ops']:
+        if op[0] == 'P':
+            pos = complex(op[1], op[2])
+        elif op[0] == 'R':
+            R = op[1]
+        elif op[0] == 'T':
+            rot = op[1]
+        elif op[0] == 'W':
+            wpos = complex(op[1], op[2])
+    return pos, R, rot, wpos
+
+
+def hist_current_spec(case):
+    """spec of the freshly constructed cell with the current (pos, radius, rotation)"""
+    pos, R, rot, wpos = hist_current(case)
+    init = case['init']
+    k = init['kind']
+    if k in ('hex', 'sec3'):
+        spec = {'kind': k, 'R': R, 'rot': rot, 'pos': c2(pos)}
+    elif k == 'square':
+        spec = {'kind': 'square', 'side': math.sqrt(2.0) * R, 'rot': rot, 'pos': c2(pos)}
+    else:   # rect: same aspect, half diagonal R, centre pos
+        a, b = cx(init['first']), cx(init['second'])
+        _, R0, _ = hist_initial(case)
+        half = complex(abs(a.real - b.real) / 2, abs(a.imag - b.imag) / 2) * (R / R0)
+        spec = {'kind': 'rect', 'first': c2(pos - half), 'second': c2(pos + half), 'rot': rot}
+    if wpos is not None:
+        return {'kind': 'wrap', 'pos': c2(wpos), 'inner': spec}
+    return spec
+
+
+def hist_build(case):
+    """the real objects: construct, optionally add a user, apply the setter calls"""
+    shapes, cell, _ = _mods()
+    obj = make_shape(case['init'])
+    wrap = cell.CellWrap(cx(case['wrap']), obj) if case.get('wrap') is not None else None
+    if case.get('pre_user') and hist_kind(case) != 'rect':
+        pos0, R0, rot0 = hist_initial(case)
+        obj.add_user(cell.Node(pos0 + 0.2 * shape_size(case['init']) * cis(rot0 + 17.0)), relative_pos_bool=False)
+    for op in case['ops']:
+        if op[0] == 'P':
+            obj.pos = complex(op[1], op[2])
+        elif op[0] == 'R':
+            obj.radius = op[1]
+        elif op[0] == 'T':
+            obj.rotation = op[1]
+        elif op[0] == 'W':
+            wrap.pos = complex(op[1], op[2])
+    return obj, wrap
+
+
+def cyc_close(got, ref, tol):
+    n = len(ref)
+    return len(got) == n and any(all(abs(got[(i + s) % n] - ref[i]) <= tol for i in range(n)) for s in range(n))
+
+
+def o_history(case):
+    """after ANY history of pos / radius / rotation setter calls a cell answers every query like a
+    freshly constructed cell with the current attributes; users placed afterwards (whole cell and
+    per sector) are inside the CURRENT cell / sector and respect the minimum distance"""
+    shapes, cell, _ = _mods()
+    kind = hist_kind(case)
+    obj, wrap = hist_build(case)
+    pos, R, rot, wpos = hist_current(case)
+    tspec = hist_current_spec(case)
+    cspec = tspec['inner'] if tspec['kind'] == 'wrap' else tspec
+    target = wrap if wrap is not None else obj
+    name = ('wrap:' if wrap is not None else '') + kind
+    sc = spec_scale(tspec)
+    tol = TOL * sc + 1e-9 * shape_size(cspec)
+
+    def cls(what):
+        return 'history:%s:%s' % (name, what)
+
+    # stored attributes are the ones written last
+    if abs(complex(obj.pos) - pos) > tol or abs(obj.radius - R) > 1e-12 * max(1.0, R) or \
+            abs(complex(obj.rotation).real - rot) > 1e-12 * max(1.0, abs(rot)):
+        return cls('attributes'), 'pos/radius/rotation read back %r %r %r, written %r %r %r' % (
+            obj.pos, obj.radius, obj.rotation, pos, R, rot)
+    fresh = make_shape(tspec)
+    # vertices: the polygon of the definition with the current attributes, and the fresh object's
+    ref = ref_vertices(tspec)
+    got = [complex(v) for v in np.asarray(target.vertices)]
+    if not cyc_close(got, ref, tol):
+        return cls('vertices'), 'vertices %s are not those of a %s with the current attributes %s' % (got[:3], name, ref[:3])
+    if not cyc_close(got, [complex(v) for v in np.asarray(fresh.vertices)], tol):
+        return cls('vertices'), 'vertices differ from a freshly constructed object'
+    # sector cells of a Cell3Sec
+    if kind == 'sec3':
+        fsec = make_shape(cspec)
+        for k, (sec, fs) in enumerate(zip([obj._sec1, obj._sec2, obj._sec3], [fsec._sec1, fsec._sec2, fsec._sec3])):
+            sspec = {'kind': 'sector', 'R': R, 'rot': rot, 'pos': c2(pos), 'k': k}
+            centre = pos + R / math.sqrt(3) * cis(rot + SEC_ANGLE[k])
+            if abs(sec.radius - R / math.sqrt(3)) > 1e-9 * max(1.0, R):
+                return cls('sector-radius'), 'sector %d has radius %r, the cell radius %r gives %r' % (
+                    k + 1, sec.radius, R, R / math.sqrt(3))
+            if abs(complex(sec.pos) - centre) > tol:
+                return cls('sector-position'), 'sector %d at %r, expected %r' % (k + 1, sec.pos, centre)
+            if not cyc_close([complex(v) for v in np.asarray(sec.vertices)], ref_vertices(sspec), tol):
+                return cls('sector-vertices'), 'sector %d is not the sector hexagon of the current cell' % (k + 1)
+            if abs(complex(sec.pos) - complex(fs.pos)) > tol or abs(sec.radius - fs.radius) > 1e-9 * max(1.0, R):
+                return cls('sector-position'), 'sector %d differs from a freshly constructed cell' % (k + 1)
+    # containment
+    for q in case['queries']:
+        p = cx(q)
+        exp, margin = shape_contains_ref(tspec, ref, p)
+        if margin < 1e-9 * sc:
+            continue
+        g = bool(target.is_point_inside_shape(p))
+        if g != exp or g != bool(fresh.is_point_inside_shape(p)):
+            return cls('contains'), 'is_point_inside_shape(%r) = %s, the point is %s the current polygon' % (
+                p, g, 'inside' if exp else 'outside')
+    # border points
+    tpos = complex(target.pos)
+    for ang, ratio in case['angles']:
+        if ratio == 0:
+            continue
+        bp = complex(target.get_border_point(ang, ratio))
+        b = tpos + (bp - tpos) / ratio
+        rel = (b - tpos) * cis(-ang)
+        if not (rel.real > 0 and abs(rel.imag) <= tol) or boundary_dist(ref, b) > tol:
+            return cls('border'), 'angle %r ratio %r: border point %r is not on the current boundary in that direction' % (ang, ratio, bp)
+        if abs(bp - complex(fresh.get_border_point(ang, ratio))) > tol:
+            return cls('border'), 'angle %r: border point differs from a freshly constructed object' % ang
+    if kind == 'rect' or wrap is not None:
+        return None
+    # a user added before a pure move follows the cell
+    if case.get('pre_user') and all(op[0] == 'P' for op in case['ops']):
+        pos0, R0, rot0 = hist_initial(case)
+        exp = pos + 0.2 * shape_size(case['init']) * cis(rot0 + 17.0)
+        if abs(complex(obj.users[0].pos) - exp) > tol:
+            return cls('user-not-moved'), 'user at %r after the move, expected %r' % (obj.users[0].pos, exp)
+    # random users, whole cell
+    ratio = case['ratio']
+    cref = ref_vertices(cspec)
+    with scripted_random(case['draws']):
+        try:
+            for _ in range(2):
+                n0 = len(obj.users)
+                obj.add_random_user(None, ratio)
+                p = complex(obj.users[-1].pos)
+                if len(obj.users) != n0 + 1:
+                    return cls('user-count'), 'add_random_user added %d users' % (len(obj.users) - n0)
+                if boundary_dist(cref, p) > 1e-9 * sc and not winding_inside(cref, p):
+                    return cls('user-outside-cell'), 'user placed at %r, %.3g outside the current cell' % (p, boundary_dist(cref, p))
+                if abs(p - pos) < ratio * R * (1 - 1e-12):
+                    return cls('user-too-close'), 'user at distance %.6g < %.6g' % (abs(p - pos), ratio * R)
+        except StreamEnd:
+            pass
+    # random users, per sector
+    if kind == 'sec3':
+        for k in range(3):
+            sref = ref_vertices({'kind': 'sector', 'R': R, 'rot': rot, 'pos': c2(pos), 'k': k})
+            centre = pos + R / math.sqrt(3) * cis(rot + SEC_ANGLE[k])
+            with scripted_random(case['sector_draws'][k]):
+                try:
+                    for use_many in (False, True):
+                        n0 = len(obj.users)
+                        if use_many:
+                            obj.add_random_users_in_sector(2, k + 1, None, ratio)
+                        else:
+                            obj.add_random_user_in_sector(k + 1, None, ratio)
+                        for us in obj.users[n0:]:
+                            p = complex(us.pos)
+                            if boundary_dist(sref, p) > 1e-9 * sc and not winding_inside(sref, p):
+                                return cls('sector-user-outside'), ('user of sector %d placed at %r, %.3g outside the current '
+                                                                    'sector (%.3g cell radii from the centre)'
+                                                                    % (k + 1, p, boundary_dist(sref, p), abs(p - pos) / R))
+                            if boundary_dist(cref, p) > 1e-9 * sc and not winding_inside(cref, p):
+                                return cls('sector-user-outside'), 'user of sector %d at %r is outside the cell' % (k + 1, p)
+                            if abs(p - centre) < ratio * R / math.sqrt(3) * (1 - 1e-12):
+                                return cls('sector-user-too-close'), 'sector user at distance %.6g from the sector centre' % abs(p - centre)
+                except StreamEnd:
+                    pass
+    return None
+
+
+def o_wrap_readonly(case):
+    """radius and rotation of a CellWrap cannot be set (they are the wrapped cell's)"""
+    shapes, cell, _ = _mods()
+    w = make_shape({'kind': 'wrap', 'pos': case['wrap'], 'inner': case['init']})
+    for attr, val in (('radius', 2.0), ('rotation', 30.0)):
+        try:
+            setattr(w, attr, val)
+            return 'history:wrap:%s-settable' % attr, 'CellWrap.%s was set' % attr
+        except AttributeError:
+            pass
+    return None
+
+
+
 ORACLES = {'vertices': o_vertices, 'is_point_inside_shape': o_contains, 'get_border_point': o_border,
            'add_border_user': o_border_user, 'add_border_user.ratio': o_border_user_ratio, 'add_random_user': o_random_user, 'add_user': o_add_user,
            'Cluster': o_cluster, 'Cluster.square.invalid': o_cluster_invalid,
-           'calc_dist_all_users_to_each_cell': o_distmatrix, 'pointprocess': o_pointprocess}
+           'calc_dist_all_users_to_each_cell': o_distmatrix, 'pointprocess': o_pointprocess,
+           'setter_history': o_history, 'CellWrap.readonly': o_wrap_readonly}
 
 
 def run_oracle(ctx, call, case, key=None, nontrivial=True):
@@ -1102,9 +1326,178 @@ def corr_corpus(ctx, drv):
             ctx.branch('border:corpus')
 
 
-def correspondence(ctx, nshapes, nq, nusers, cluster_cases, ndist, npp):
+def gen_history(rng, kind=None, nq=6):
+    """a freshly constructed cell, 1-6 setter calls (radii growing AND shrinking by factors 0.05..10,
+    moves, rotations in [-720, 720]; for wrapped cells also moves of the wrap), then the queries"""
+    kind = kind or rng.choice(['hex', 'sec3', 'sec3', 'sec3', 'square', 'square', 'rect', 'wrap:hex', 'wrap:sec3', 'wrap:square'])
+    wrapped = kind.startswith('wrap:')
+    base = kind[5:] if wrapped else kind
+    init = gen_spec(rng, [base])
+    case = {'init': init, 'wrap': gen_pos(rng) if wrapped else None, 'ops': []}
+    _, R, _ = hist_initial(case)
+    for _ in range(rng.randint(1, 6)):
+        t = rng.choice(['P', 'R', 'R', 'T'] + (['W'] if wrapped else []))
+        if t == 'P':
+            case['ops'].append(['P'] + gen_pos(rng))
+        elif t == 'W':
+            case['ops'].append(['W'] + gen_pos(rng))
+        elif t == 'T':
+            case['ops'].append(['T', gen_rot(rng)])
+        else:
+            R = min(1e3, max(1e-3, round(R * rng.choice([0.05, 0.1, 0.2, 0.5, 0.9, 1.5, 3.0, 10.0]), 9)))
+            case['ops'].append(['R', R])
+    tspec = hist_current_spec(case)
+    case['queries'] = gen_queries(rng, tspec, nq)
+    case['angles'] = gen_angles(rng, tspec, nq)
+    case['ratio'] = rng.choice([0.0, 0.0, 0.3, 0.6])
+    case['draws'] = gen_draws(rng, 40)
+    case['sector_draws'] = [gen_draws(rng, 40) for _ in range(3)]
+    case['pre_user'] = rng.chance(0.3)
+    return case
+
+
+def hist_line(case):
+    """driver tokens `cellhist [wrap wx wy] kind px py size rot ops`"""
+    init = case['init']
+    f = core.f2s
+    size = init['side'] if init['kind'] == 'square' else init['R']
+    toks = []
+    for op in case['ops']:
+        if op[0] in ('P', 'W'):
+            toks.append('%s:%s:%s' % (op[0], f(op[1]), f(op[2])))
+        else:
+            toks.append('%s:%s' % (op[0], f(op[1])))
+    head = 'cellhist '
+    if case.get('wrap') is not None:
+        head += 'wrap %s %s ' % (f(case['wrap'][0]), f(case['wrap'][1]))
+    return head + '%s %s %s %s %s %s' % (init['kind'], f(init['pos'][0]), f(init['pos'][1]), f(size), f(init['rot']),
+                                         ','.join(toks) if toks else '-')
+
+
+def corr_history(ctx, drv, ncases):
+    """the state-machine model against the real objects after the same setter calls"""
+    shapes, cell, _ = _mods()
+    fixed = []
+    for kind in ('hex', 'sec3', 'square', 'wrap:sec3', 'wrap:square'):     # every kind, shrinking and growing
+        for f in (0.1, 4.0):
+            c = gen_history(ctx.rng, kind)
+            _, R0, _ = hist_initial(c)
+            c['ops'] = [['R', round(R0 * f, 9)]] + c['ops'][:2]
+            t = hist_current_spec(c)
+            c['queries'] = gen_queries(ctx.rng, t, 6)
+            c['angles'] = gen_angles(ctx.rng, t, 6)
+            fixed.append(c)
+    for case in fixed + [gen_history(ctx.rng) for _ in range(ncases)]:
+        kind = hist_kind(case)
+        if kind == 'rect':
+            continue
+        obj, wrap = hist_build(case)
+        target = wrap if wrap is not None else obj
+        tspec = hist_current_spec(case)
+        name = ('wrap:' if wrap is not None else '') + kind
+        sc = spec_scale(tspec)
+        tol = TOL * sc + 1e-9 * shape_size(tspec)
+        hl = hist_line(case)
+        verts = [complex(v) for v in np.asarray(target.vertices)]
+        lines = [hl + ' verts', hl + ' inside ' + qline(case['queries'])]
+        lines += ['%s border %s %s' % (hl, core.f2s(a), core.f2s(r)) for a, r in case['angles']]
+        out = drv.ask(lines)
+        mv = fpts(out[0])
+        ok = pts_close(verts, mv, tol)
+        ctx.corr('history.vertices.' + name, case, 'match' if ok else repr(verts[:4]), 'match' if ok else repr(mv[:4]),
+                 key=('hverts', repr(case['init']), repr(case['ops'])))
+        ctx.branch('history:' + name)
+        for op in case['ops']:
+            ctx.branch('history-op:' + op[0])
+        _, R0, _ = hist_initial(case)
+        for op in case['ops']:
+            if op[0] == 'R':
+                ctx.branch('history-radius:' + ('shrink' if op[1] < R0 else 'grow'))
+                R0 = op[1]
+        ref = ref_vertices(tspec)
+        for q, m in zip(case['queries'], out[1].split(',')):
+            p = cx(q)
+            _, margin = shape_contains_ref(tspec, ref, p)
+            if margin < 1e-9 * sc:
+                continue
+            ctx.corr('history.inside.' + name, {'case': case, 'q': q}, '1' if target.is_point_inside_shape(p) else '0', m,
+                     key=('hinside', repr(case['ops']), repr(q)))
+        for (a, r), m in zip(case['angles'], out[2:]):
+            try:
+                p = complex(target.get_border_point(a, r))
+                mp = fpts(m)[0] if not m.startswith('error') else None
+                ok = mp is not None and abs(p - mp) <= tol
+                ctx.corr('history.border.' + name, {'case': case, 'angle': a, 'ratio': r}, 'match' if ok else repr(p),
+                         'match' if ok else m, key=('hborder', repr(case['ops']), a, r))
+            except ValueError:
+                ctx.corr('history.border.' + name, {'case': case, 'angle': a, 'ratio': r}, 'error:ValueError', m,
+                         key=('hborder', repr(case['ops']), a, r))
+        if wrap is not None:
+            continue
+        # stored attributes and sector cells
+        m = drv.ask([hl + ' state'])[0].split()
+        mpos = fpts(m[0])[0]
+        ok = (abs(mpos - complex(obj.pos)) <= tol and core.close(core.s2f(m[1]), float(obj.radius), 1e-12)
+              and core.close(core.s2f(m[2]), float(complex(obj.rotation).real), 1e-12))
+        ctx.corr('history.attributes.' + name, case, 'match' if ok else repr((obj.pos, obj.radius, obj.rotation)),
+                 'match' if ok else repr(m), key=('hstate', repr(case['init']), repr(case['ops'])))
+        if kind == 'sec3':
+            m = drv.ask([hl + ' secinfo'])[0].split(';')
+            ok = len(m) == 3
+            for sec, t in zip([obj._sec1, obj._sec2, obj._sec3], m):
+                v = [core.s2f(x) for x in t.split(',')]
+                ok = ok and abs(complex(v[0], v[1]) - complex(sec.pos)) <= tol and core.close(v[2], float(sec.radius), 1e-12) \
+                    and core.close(v[3], float(complex(sec.rotation).real), 1e-12)
+            ctx.corr('history.sectors', case, 'match' if ok else repr([(s_.pos, s_.radius, s_.rotation) for s_ in
+                                                                        (obj._sec1, obj._sec2, obj._sec3)]),
+                     'match' if ok else repr(m), key=('hsec', repr(case['init']), repr(case['ops'])))
+            ctx.branch('history:sectors')
+        # scripted placement: whole cell, then per sector
+        pos, R, rot, _ = hist_current(case)
+        jobs = [('cell', None, case['draws'], complex(obj.pos), obj.radius, ref_vertices(tspec))]
+        if kind == 'sec3':
+            for k, sec in enumerate([obj._sec1, obj._sec2, obj._sec3]):
+                jobs.append(('sector', k, case['sector_draws'][k], complex(sec.pos), sec.radius,
+                             ref_vertices({'kind': 'sector', 'R': R, 'rot': rot, 'pos': c2(pos), 'k': k})))
+        for what, k, draws, centre, radius, pref in jobs:
+            with scripted_random(draws) as sr:
+                try:
+                    if what == 'cell':
+                        obj.add_random_user(None, case['ratio'])
+                    else:
+                        obj.add_random_user_in_sector(k + 1, None, case['ratio'])
+                    impl = (complex(obj.users[-1].pos), sr.i // 2)
+                except StreamEnd:
+                    impl = None
+            used = impl[1] if impl else len(draws) // 2
+            tie = False
+            for j in range(used):
+                c = centre + complex(2 * (draws[2 * j] - 0.5) * radius, 2 * (draws[2 * j + 1] - 0.5) * radius)
+                if boundary_dist(pref, c) < 1e-9 * sc or (case['ratio'] > 0 and
+                                                           abs(abs(c - centre) - case['ratio'] * radius) < 1e-9 * sc):
+                    tie = True
+            if tie:
+                ctx.branch('history-randuser:near-tie-skipped')
+                continue
+            q = ('randuser %s %s' if what == 'cell' else 'sector %d randuser %%s %%s' % k) % (
+                core.f2s(case['ratio']), ','.join(core.f2s(d) for d in draws))
+            m = drv.ask([hl + ' ' + q])[0]
+            ckey = ('hru', what, k, repr(case['init']), repr(case['ops']))
+            if impl is None or m == 'none':
+                ctx.corr('history.add_random_user.' + what, case, 'none' if impl is None else 'placed',
+                         'none' if m == 'none' else 'placed', key=ckey)
+                continue
+            mp, mn = m.split()
+            ok = abs(fpts(mp)[0] - impl[0]) <= tol and int(mn) == impl[1]
+            ctx.corr('history.add_random_user.' + what, case, 'match' if ok else repr(impl), 'match' if ok else m, key=ckey)
+            ctx.branch('history-randuser:' + what)
+
+
+
+def correspondence(ctx, nshapes, nq, nusers, cluster_cases, ndist, npp, nhist):
     drv = core.Driver(DRIVER)
     corr_corpus(ctx, drv)
+    corr_history(ctx, drv, nhist)
     corr_shapes(ctx, drv, ['hex', 'hexshape', 'sec3', 'rect', 'rect', 'square', 'circle', 'wrap', 'sector'], nshapes, nq)
     corr_users(ctx, drv, nusers, 40)
     corr_clusters(ctx, drv, cluster_cases)
@@ -1113,10 +1506,25 @@ def correspondence(ctx, nshapes, nq, nusers, cluster_cases, ndist, npp):
 
 
 # ------------------------------------------------------------------ oracle runs
-def oracles(ctx, nshapes, nq, nusers, cluster_cases, ndist, npp):
+def oracles(ctx, nshapes, nq, nusers, cluster_cases, ndist, npp, nhist):
     for name, call, case in load_corpus():
         run_oracle(ctx, call, case, key=('corpus', name))
         ctx.branch('corpus')
+    # setter histories: every kind with a shrinking and a growing radius first, then seeded histories
+    for kind in ('hex', 'sec3', 'square', 'rect', 'wrap:hex', 'wrap:sec3', 'wrap:square'):
+        for f in (0.05, 0.2, 5.0):
+            case = gen_history(ctx.rng, kind)
+            _, R0, _ = hist_initial(case)
+            case['ops'] = [['R', round(R0 * f, 9)]] + case['ops'][:ctx.rng.randint(0, 2)]
+            t = hist_current_spec(case)
+            case['queries'] = gen_queries(ctx.rng, t, 6)
+            case['angles'] = gen_angles(ctx.rng, t, 6)
+            run_oracle(ctx, 'setter_history', case, key=('hist-fixed', kind, f))
+    for _ in range(nhist):
+        case = gen_history(ctx.rng)
+        run_oracle(ctx, 'setter_history', case, key=('hist', repr(case['init']), repr(case['ops'])))
+    for _ in range(3):
+        run_oracle(ctx, 'CellWrap.readonly', {'wrap': gen_pos(ctx.rng), 'init': gen_spec(ctx.rng, ['hex', 'sec3', 'square'])})
     for _ in range(nshapes):
         spec = gen_spec(ctx.rng, ['hex', 'hexshape', 'sec3', 'rect', 'rect', 'square', 'circle', 'wrap', 'sector'])
         run_oracle(ctx, 'vertices', {'spec': spec}, key=('v', repr(spec)))
@@ -1202,11 +1610,14 @@ def check(ctx):
                 '1e-1..1e-7 of the size, uniform and far; border angles uniform, on vertex / edge-normal directions and '
                 '1e-1..1e-6 degrees beside them, ratios {0,.5,.9,1,seeded}; scripted and seeded np.random streams; '
                 'clusters of sizes {1,3,4,7,13,19} (+ other n <= 19) x simple/3sec and k x k squares x seeded rotation; '
-                'non-trivial = distinct (call, shape spec, query)')
+                'cells as state machines: histories of 1-6 pos / radius (x0.05..x10) / rotation setter calls on Cell, '
+                'Cell3Sec, CellSquare, Rectangle and wrapped cells followed by every query; '
+                'non-trivial = distinct (call, shape spec, query / history)')
     nshapes, nq = (60, 12) if quick else (1500, 40)
     nusers = 60 if quick else 1500
     nrot = 3 if quick else 40
     ndist, npp = (20, 40) if quick else (400, 800)
+    nhist = 80 if quick else 3000
     core.prove(ctx, MODULE, generated=['C19Tables'], drivers=[DRIVER], scratch=ctx.scratch)
     ctx.required_branches = ['vertices:hex', 'vertices:sec3', 'vertices:rect', 'vertices:square', 'vertices:circle',
                              'vertices:wrap', 'inside:rect:in', 'inside:rect:out', 'inside:hex:in', 'inside:hex:out',
@@ -1214,16 +1625,20 @@ def check(ctx):
                              'border:sec3', 'border:square', 'border:circle', 'randuser:min-dist',
                              'randuser:square:after-rejections', 'randuser:hex:after-rejections', 'cluster:simple:19',
                              'cluster:3sec:7', 'cluster:square:9', 'distm:users', 'pp:circle', 'pp:rectangle',
-                             'adduser:ok', 'adduser:error:ValueError', 'borderuser:placed', 'borderuser:rejected']
+                             'adduser:ok', 'adduser:error:ValueError', 'borderuser:placed', 'borderuser:rejected',
+                             'history:hex', 'history:sec3', 'history:square', 'history:wrap:sec3', 'history:wrap:square',
+                             'history:sectors', 'history-op:P', 'history-op:R', 'history-op:T', 'history-op:W',
+                             'history-radius:shrink', 'history-radius:grow', 'history-randuser:cell',
+                             'history-randuser:sector']
     cases = cluster_cases_for(ctx, nrot)
     try:
-        correspondence(ctx, nshapes, nq, nusers, cases, ndist, npp)
+        correspondence(ctx, nshapes, nq, nusers, cases, ndist, npp, nhist)
     except core.Infra as e:
         if not ctx.broken:
             raise
         ctx.notes.append('correspondence skipped: %s' % e)
         ctx.required_branches = []
-    oracles(ctx, nshapes, nq, nusers, cases, ndist, npp)
+    oracles(ctx, nshapes, nq, nusers, cases, ndist, npp, nhist)
     ctx.exhaustive = False
     ctx.sample({'call': 'is_point_inside_shape', 'spec': {'kind': 'rect', 'first': [-1, -1], 'second': [1, 1], 'rot': 45.0},
                 'query': [1.2, 0.0], 'expected': 'inside (the rotated square reaches 1.414 on the axis)'})
@@ -1234,6 +1649,10 @@ def check(ctx):
 
 
 def search(ctx):
+    for _ in range(300):
+        run_oracle(ctx, 'setter_history', gen_history(ctx.rng))
+        if ctx.failures:
+            return
     for _ in range(400):
         spec = gen_spec(ctx.rng, ['hex', 'hexshape', 'sec3', 'rect', 'rect', 'square', 'circle', 'wrap', 'sector'])
         run_oracle(ctx, 'vertices', {'spec': spec})
